@@ -59,6 +59,7 @@ struct PerItem {
   std::atomic<uint32_t> commitTag{0};
   std::atomic<uint64_t> firstStartTicket{0};
   std::atomic<uint64_t> commitTicket{0};
+  std::atomic<uint64_t> pushedMask{~0ull}; // which of the first 64 children the committing attempt pushed
 };
 
 // access to the protected owner accessors
@@ -117,6 +118,8 @@ struct Case {
   Viol viols[12];
   std::atomic<uint64_t> maxSinceCommit{0};
   bool recordLevels = false; // C08: start/commit tickets per item
+  bool deterministic = false; // C07: cautious operator for worklists::Deterministic (cautiousPoint after the acquires)
+  bool dynamicPush   = false; // C07: which children are pushed depends on the state read at the commit point
 
   uint64_t chk(uint32_t id, uint32_t tag) const { return mix(salt ^ id, tag); }
   Item mk(uint32_t id, uint32_t tag) const { return Item{id, tag, chk(id, tag)}; }
@@ -220,7 +223,9 @@ struct Case {
       }
     }
     // C02(c): nothing acquired by the previous attempt on this thread may still be ours
-    if (cdActive) {
+    // (not under the deterministic executor: there the inspect pass's acquisitions legitimately persist
+    // into the execute pass of the same item)
+    if (cdActive && !deterministic) {
       for (unsigned j = 0; j < tl.nPrev; ++j)
         if (Probe::ownerOf(&objs[tl.prev[j]]) == myctx)
           report(key("C02", "lock-not-released"), "tid %u still owns object %u at the start of item %u", tid,
@@ -260,16 +265,22 @@ struct Case {
           tl.ver[tl.nOwned]   = objs[o].version;
           tl.nOwned++;
         }
-        if (p.delayKind == 3 && i + 1 < p.nn)
+        if (p.delayKind == 3 && i + 1 < p.nn && !(deterministic && ctx.isFirstPass()))
           busy_delay_ns(2000);
       }
-      if (p.delayKind == 1)
+      if (deterministic && ctx.isFirstPass()) {
+        // the inspect pass runs once per round for every pending item: keep it cheap
+      } else if (p.delayKind == 1)
         busy_delay_ns(500 + (it.id % 7) * 300);
       else if (p.delayKind == 2)
         sleep_us(100 + (it.id % 5) * 100);
       else if (p.delayKind == 3)
         busy_delay_ns(20000);
     }
+
+    // deterministic executor contract: everything is acquired, nothing written yet
+    if (deterministic)
+      ctx.cautiousPoint();
 
     // voluntary abort (only meaningful when the executor can abort)
     if (cdActive && attempt <= p.vaborts) {
@@ -278,7 +289,8 @@ struct Case {
     }
 
     // ------------------------------------------------------------ commit point
-    uint64_t tk = 0;
+    uint64_t tk       = 0;
+    uint64_t pushMask = ~0ull;
     if (tl.nOwned) {
       uint64_t mystamp = ((uint64_t)(tid + 1) << 32) | tag;
       for (unsigned j = 0; j < tl.nOwned; ++j) {
@@ -306,6 +318,8 @@ struct Case {
       uint64_t acc = it.id;
       for (unsigned j = 0; j < tl.nOwned; ++j)
         acc = mix(acc, objs[tl.owned[j]].value);
+      if (dynamicPush)
+        pushMask = mix(acc, 77) | mix(acc, 78); // ~3/4 of the children, decided by the state that was read
       for (unsigned j = 0; j < tl.nOwned; ++j) {
         Obj& ob  = objs[tl.owned[j]];
         ob.value = ob.value * 1000003ull + acc + j;
@@ -328,6 +342,7 @@ struct Case {
     tl.commits.push_back(Commit{tk, it.id});
     if (recordLevels && cdActive)
       pi.commitTicket.store(tk, std::memory_order_relaxed);
+    pi.pushedMask.store(pushMask, std::memory_order_relaxed);
     pi.commitTag.store(tag, std::memory_order_relaxed);
     pi.commits.fetch_add(1, std::memory_order_relaxed);
     sinceCommit.store(0, std::memory_order_relaxed);
@@ -338,6 +353,8 @@ struct Case {
 
     // pushes after the commit point
     for (unsigned i = p.pushBefore; i < p.childCount; ++i) {
+      if (i < 64 && !((pushMask >> i) & 1))
+        continue;
       itemPayload[p.childBegin + i] = tag;
       ctx.push(mk(p.childBegin + i, tag));
     }
@@ -410,6 +427,16 @@ void runLoop(Case& c, bool conflicts, bool pia, WArgs&&... wargs) {
   else
     galois::for_each(range, op, galois::wl<WL>(std::forward<WArgs>(wargs)...),
                      galois::disable_conflict_detection(), galois::no_stats());
+}
+
+inline Harness* gH = nullptr;
+
+inline void Case::flushAndExit() {
+  for (auto& v : viols)
+    if (v.set.load() == 2)
+      gH->violation(v.key, J().kv("detail", v.detail).str());
+  gH->line(J().kv("ev", "fatal_exit").kv("case", gH->curCase).str());
+  _exit(4);
 }
 
 #define C01_WL(NAME, FAMILY, FLAGS, ...)                                                            \
